@@ -21,6 +21,7 @@ import (
 	"github.com/influxdata/influxdb/models"
 	"github.com/influxdata/influxdb/pkg/limiter"
 	"github.com/influxdata/influxdb/pkg/pool"
+	"github.com/influxdata/influxdb/pkg/verifhook"
 	"go.uber.org/zap"
 )
 
@@ -298,7 +299,9 @@ func (l *WAL) scheduleSync() {
 // sync fsyncs the current wal segments and notifies any waiters.  Callers must ensure
 // a write lock on the WAL is obtained before calling sync.
 func (l *WAL) sync() {
+	verifhook.Fire("wal.sync.before", l.currentSegmentWriter.path())
 	err := l.currentSegmentWriter.sync()
+	verifhook.Fire("wal.synced", l.currentSegmentWriter.path(), err)
 	for len(l.syncWaiters) > 0 {
 		errC := <-l.syncWaiters
 		errC <- err
@@ -362,6 +365,7 @@ func (l *WAL) Remove(files []string) error {
 	for _, fn := range files {
 		l.traceLogger.Info("Removing WAL file", zap.String("path", fn))
 		os.RemoveAll(fn)
+		verifhook.Fire("wal.removed", fn)
 	}
 
 	// Refresh the on-disk size stats
@@ -434,6 +438,7 @@ func (l *WAL) writeToLog(entry WALEntry) (int, error) {
 		if err := l.currentSegmentWriter.Write(entry.Type(), compressed); err != nil {
 			return -1, fmt.Errorf("error writing WAL entry: %v", err)
 		}
+		verifhook.Fire("wal.written", l.currentSegmentWriter.path())
 
 		select {
 		case l.syncWaiters <- syncErr:
@@ -574,6 +579,7 @@ func (l *WAL) newSegmentFile() error {
 		return err
 	}
 	l.currentSegmentWriter = NewWALSegmentWriter(fd)
+	verifhook.Fire("wal.rolled", fileName)
 
 	// Reset the current segment size stat
 	atomic.StoreInt64(&l.stats.CurrentBytes, 0)
